@@ -26,7 +26,7 @@ CLAIMS = {
              ".byte/.word/.dword/.blkb/.blkw/.even/.odd/.align/.ascii/.asciz and implicit word lists, executed through the real "
              "Metacommand.compile_insn, emit exactly the specified bytes or report an error. Every path of the real function ASTs is a z3 obligation.",
         note="Trusted: pyvc's semantics of the Python subset, z3, struct.pack model, str.encode for stdlib codecs (external), closed facts read from the imported package. "
-             "Outside: parser (escape expansion, tokenisation). '.align 0' is excluded by precondition here and owned by C08.",
+             "Outside: parser (escape expansion, tokenisation).",
     ),
 }
 
@@ -104,6 +104,18 @@ CLAIMS["C19"] = dict(
          "'-' -> listing.lst, for 8 output spellings x 0-2 make_* outputs. Label values are the address objects of the C02 accounting. Run-time check on real listings.",
     note="Trusted: pyvc incl. its forking model of list.sort, z3; oct()/int(.,8) are axiomatised (zero padding, sign) and differential-tested by the run-time check. "
          "Known findings D12/D8 as in C07.",
+)
+
+CLAIMS["C08"] = dict(
+    text="PARTIAL BY CONSTRUCTION - function-level only: exception freedom (every path ends in a return or in RecoverableError after an error report, "
+         "UnrecoverableError after a critical one, NotReadyError speculatively) and termination (loop variants, cycle detection) are proved for 72 functions under "
+         "contract, for all values of their inputs: operand stubs for every skeleton incl. registers written %e, data directives incl. '.align 0', all operator bodies, "
+         "symbol-table functions, compile_block over statement lists of arbitrary length, the zero-size directives, main_cli (the internal-error path is reached only "
+         "through an internal exception of parse/compile). Totality over 'all source texts' is NOT decided: the parser is outside the verifier's subset. A run-time "
+         "check feeds 300 (3000 thorough) grammar-directed random programs with planted faults through the real parser+assembler under a watchdog (testing).",
+    note="Trusted: pyvc incl. its models of builtin exceptions, z3. Known findings proved absent outside their regions: D7 ('(%x)+' with x defined later: TypeError), "
+         "D15 (x = x + 1: never terminates), D16 (x = x / 2: DeferredCycle escapes), D8 (image >= 64 KiB to bin), D12 (shared C07 units). Recursion depth/memory/time "
+         "are not modelled. The parser's own totality is not claimed.",
 )
 
 CLAIMS["C09"] = dict(
